@@ -4,6 +4,7 @@ violations natively -> verdict + evidence.  Invoked through /verif/check."""
 import sys, os, time, json, subprocess, tempfile, shutil, hashlib, re, collections
 HERE = os.path.dirname(os.path.abspath(__file__))
 VERIF = os.path.dirname(HERE)
+SUPPORT_SELFTEST = 'not run'
 OUT = os.environ.get('VERIF_OUT', VERIF)      # evidence/ and replay/ go here (seed regression and background runs redirect it)
 sys.path.insert(0, HERE)
 import irparse, symx
@@ -49,6 +50,21 @@ def lower(run, work):
     m = irparse.parse_module(text)
     L = Lowered(); L.module = m; L.ll = out; L.lines = text.count('\n'); L.secs = time.time() - t0; L.cmd = ' '.join([CLANG] + flags)
     return L
+
+
+def support_selftest(work):
+    """Trusted-base check: the support TU (own list/tree/rehash functions that stand in for libstdc++.so in the lowered IR) must agree with the
+    real libstdc++.so on random std::map / std::list / std::unordered_map operation sequences. Returns (ok, text)."""
+    src = os.path.join(VERIF, 'support', 'support_difftest.cpp'); sup = os.path.join(VERIF, 'support', 'stdsupport.cpp')
+    a = os.path.join(work, 'sd_ref'); b = os.path.join(work, 'sd_mine')
+    p1 = subprocess.Popen(['g++', '-O1', '-std=c++17', src, '-o', a], stdout=subprocess.PIPE, stderr=subprocess.PIPE)
+    p2 = subprocess.Popen(['g++', '-O1', '-std=c++17', src, sup, '-o', b], stdout=subprocess.PIPE, stderr=subprocess.PIPE)
+    e1 = p1.communicate()[1]; e2 = p2.communicate()[1]
+    if p1.returncode or p2.returncode: return False, 'support differential test does not build: ' + (e1 + e2).decode()[-500:]
+    for sd in range(1, 9):
+        ra = subprocess.run([a, str(sd)], capture_output=True, text=True).stdout.strip(); rb = subprocess.run([b, str(sd)], capture_output=True, text=True).stdout.strip()
+        if ra != rb or not ra: return False, 'support TU disagrees with libstdc++.so for seed %d: %s vs %s' % (sd, ra, rb)
+    return True, '8 random operation scripts (200 rounds x 60 ops on std::map/std::list, 300 unordered_map inserts each): support TU == libstdc++.so'
 
 
 NATIVE_VARIANTS = {
@@ -336,7 +352,10 @@ def main():
     def log(s): print(s, flush=True)
     log('check %s tier=%s: %d run(s); IR regenerated from %s' % (pid, a.tier, len(runs), REPO))
     results = []; fatal = []
+    global SUPPORT_SELFTEST
     try:
+        ok, SUPPORT_SELFTEST = support_selftest(work)
+        if not ok: fatal.append('TRUSTED-BASE: ' + SUPPORT_SELFTEST)
         for run in runs:
             try:
                 results.append(explore_run(pid, run, a.tier, work, a.j, log))
@@ -405,6 +424,7 @@ def write_evidence(pid, tier, seed, spec, runs, results, problems, nviol, wall):
                   'deadlock_states': r['tot']['deadlocks'], 'witnesses_validated_natively': r.get('validated', 0), 'violations': r['tot']['nviol']} for r in results],
         'functions_encoded': enc,
         'e_bmc': [dict(r['bmc'], run=r['name']) for r in results if 'bmc' in r],
+        'support_tu_selftest': SUPPORT_SELFTEST,
         'outside_the_bounds': spec.outside,
         'problems': problems,
     }
